@@ -190,6 +190,38 @@ fn triples(tier: Tier) -> Vec<Triple> {
             out.push(t);
         }
     }
+    // (iv-b) values beyond the 65535-byte limit: never a match, whatever the other side uses (same value, another
+    // over-long value, the value truncated to 65535 bytes, or the value reduced modulo 65536 = empty)
+    let over = |c: u8| V::B(vec![c; 65536]);
+    for (x, y) in [(over(b'i'), over(b'i')), (over(b'i'), over(b'j')), (over(b'i'), mk(65535, None)), (mk(65535, None), over(b'i')), (over(b'i'), V::B(vec![])), (V::B(vec![]), over(b'i')), (over(b'i'), V::Absent)] {
+        let mut t = Triple::matched("over-limit/ctx", &V::Absent, &V::Absent, &x, al::CID_DEFAULT);
+        t.c_ctx = y.clone();
+        out.push(t);
+        let mut t = Triple::matched("over-limit/idu", &V::Absent, &V::Absent, &V::Absent, al::CID_DEFAULT);
+        t.s_idu = x.clone();
+        t.c_idu = y.clone();
+        out.push(t);
+        let mut t = Triple::matched("over-limit/ids", &V::Absent, &V::Absent, &V::Absent, al::CID_DEFAULT);
+        t.s_ids = x.clone();
+        t.c_ids = y.clone();
+        out.push(t);
+    }
+    // (iv-c) near-miss values (trailing space, case, NUL, prefix, ...): all ordered pairs per dimension
+    let nm: Vec<V> = al::near_misses(b"user").into_iter().map(V::B).collect();
+    for x in &nm {
+        for y in &nm {
+            let mut t = Triple::matched("near-miss/ctx", &V::Absent, &V::Absent, x, al::CID_DEFAULT);
+            t.c_ctx = y.clone();
+            out.push(t);
+            let mut t = Triple::matched("near-miss/idu", x, &V::Absent, &V::Absent, al::CID_DEFAULT);
+            t.c_idu = y.clone();
+            t.s_idu = y.clone();
+            out.push(t);
+            let mut t = Triple::matched("near-miss/ids", &V::Absent, x, &V::Absent, al::CID_DEFAULT);
+            t.c_ids = y.clone();
+            out.push(t);
+        }
+    }
     // (v) all ordered pairs of credential identifiers
     for a in al::cids_full() {
         for b in al::cids_full() {
@@ -307,7 +339,11 @@ fn explore(api: &Api, ts: &[Triple], seed: u64, cx: &mut Cx) {
                     sessions.insert(sk_, x);
                 }
                 Err(e) => {
-                    cx.violate("server-start/error", format!("server login start with valid parameters fails: {:?}", e));
+                    if tr.fam.starts_with("over-limit") {
+                        cx.outcome("rejected-over-limit");
+                    } else {
+                        cx.violate("server-start/error", format!("server login start with valid parameters fails: {:?}", e));
+                    }
                     continue;
                 }
             }
@@ -318,13 +354,15 @@ fn explore(api: &Api, ts: &[Triple], seed: u64, cx: &mut Cx) {
         let s_ok = tr.r_ids.eff(&spk) == tr.s_ids.eff(&spk) && tr.s_ids.eff(&spk) == tr.c_ids.eff(&spk);
         let c_ok = tr.s_ctx.eff_ctx() == tr.c_ctx.eff_ctx();
         let cid_ok = tr.r_cid == tr.s_cid;
-        let expect = u_ok && s_ok && c_ok && cid_ok;
+        let over_limit = [&tr.s_ctx, &tr.s_idu, &tr.s_ids, &tr.c_ctx, &tr.c_idu, &tr.c_ids].iter().any(|v| matches!(v, V::B(b) if b.len() > 65535));
+        let expect = u_ok && s_ok && c_ok && cid_ok && !over_limit;
         let mism = || {
             let mut v = vec![];
             if !u_ok { v.push("idu") }
             if !s_ok { v.push("ids") }
             if !c_ok { v.push("ctx") }
             if !cid_ok { v.push("cid") }
+            if v.is_empty() { v.push("over-limit-value") }
             v.join("+")
         };
         cx.edges += 1;
